@@ -5,12 +5,13 @@ Require Import Verif.Lib.Wire Verif.Gen.Facts_C10 Verif.Model.C10 Verif.Proofs.C
         Verif.Proofs.C10_codec Verif.Proofs.C10_real Verif.Proofs.C10_gen.
 
 Lemma generated_chain_refines_spec O o : rt_b64 O -> rt_ser O -> mac_len O ->
-  forall l last sv, inv O o last sv ->
+  forall l last sv, chain_ok O o l -> inv O o last sv ->
   Forall2 ok_at (grun_chain O o last l) (spec_chain O o sv true l).
 Proof. intros. rewrite grun_chain_is_model. apply chain_refines_spec; assumption. Qed.
 
 Lemma generated_chain_refines_spec_real macf n o l :
   (forall k m, length (macf k m) = n) -> (forall k m, Forall (fun b => (b < 256)%N) (macf k m)) -> wf_chain l ->
+  chain_ok (real_O macf n) o l ->
   Forall2 ok_at (grun_chain (real_O macf n) o None l) (spec_chain (real_O macf n) o None true l).
 Proof. intros. rewrite grun_chain_is_model. apply chain_refines_spec_real; assumption. Qed.
 
